@@ -918,13 +918,17 @@ func (repo *Repository) consolidate(ctx context.Context) error {
 
 	newBranches := Branches{newMainBranch}
 
-	// Reconnect previously oldest branch to the new main branch.
-	newOldestBranch, err := oldestBranch.Truncate(ctx, repo.store, newMainBranch, linkHeight)
-	if err != nil {
-		return errors.Wrap(err, "truncate previous oldest to main")
-	}
+	// Reconnect previously oldest branch to the new main branch. There is nothing to reconnect when
+	// all of its headers are in the new main branch, which happens after its headers above the
+	// link height were trimmed.
+	if oldestBranch.Height() > linkHeight {
+		newOldestBranch, err := oldestBranch.Truncate(ctx, repo.store, newMainBranch, linkHeight)
+		if err != nil {
+			return errors.Wrap(err, "truncate previous oldest to main")
+		}
 
-	newBranches = append(newBranches, newOldestBranch)
+		newBranches = append(newBranches, newOldestBranch)
+	}
 
 	// Sort by parent height so they can be properly connected to the new main branch.
 	sort.Sort(repo.branches)
